@@ -379,6 +379,43 @@ static int pairs(char db, int zi, int zj) {
       }
     }
   }
+  // adjacent years at the edges: an instant in the first / last days of a year (incl. Jan 1 and Dec 31 UTC, which the
+  // basic processor files under the neighbouring year) before or after an instant of the neighbouring or the same year
+  {
+    std::vector<long long> pts; std::vector<int> py;
+    for (int y = 1998; y <= 2051; y++) {
+      long long base = (long long) LocalDate::forComponents(y, 1, 1).toEpochDays() * 86400LL;
+      long long yl = (long long) LocalDate::forComponents(y + 1, 1, 1).toEpochDays() * 86400LL - base;
+      long long offs[7] = {0, 43200, 14LL * 86400, 181LL * 86400 + 43200, yl - 17LL * 86400, yl - 43200, yl - 1};
+      for (int i = 0; i < 7; i++) { pts.push_back(base + offs[i]); py.push_back(y); }
+    }
+    static const int ks[3] = {0, 2, 3};   // off, abbrev, odt (the local date-time of the instant in UTC)
+    for (size_t i = 0; i < pts.size(); i++) for (size_t j = 0; j < pts.size(); j++) {
+      if (i == j || abs(py[i] - py[j]) > 1) continue;
+      if (i % 7 == 3 && j % 7 == 3) continue;   // mid-year / mid-year pairs are covered above
+      for (int a = 0; a < 3; a++) for (int b2 = 0; b2 < 3; b2++) {
+        reset_all();
+        handle(std::string("PROC ") + db);
+        char b[64]; snprintf(b, sizeof(b), "TZ 0 %d", zi); handle(b);
+        auto arg = [&](int k, long long t) {
+          char c[80];
+          if (ks[k] == 3) {
+            LocalDateTime l = LocalDateTime::forEpochSeconds((acetime_t) t);
+            snprintf(c, sizeof(c), "odt %d %d %d %d %d %d", (int) l.year(), (int) l.month(), (int) l.day(), (int) l.hour(), (int) l.minute(), (int) l.second());
+          } else snprintf(c, sizeof(c), "%s %lld", kinds[ks[k]], t);
+          return std::string(c);
+        };
+        std::string a1 = arg(a, pts[i]), a2 = arg(b2, pts[j]);
+        handle("Q 0 " + a1);
+        std::string got = handle("Q 0 " + a2), want = handle("F 0 " + a2);
+        n++;
+        if (got != want) {
+          if (bad < 10) printf("MISMATCH zone=%d hist=[%s; %s] got=%s fresh=%s\n", zi, a1.c_str(), a2.c_str(), got.c_str(), want.c_str());
+          bad++;
+        }
+      }
+    }
+  }
   // q(zoneA); q(zoneB); q(zoneA) on one shared processor
   if (zj >= 0) {
     // every ordered pair of years (the year the processor holds for A when it is re-bound x the year of the first query
